@@ -438,11 +438,31 @@ class Evaluator:
                       target_expr=t.value)
             newv = Term('stored', (base,), uid=fresh_serial(), kind=getattr(base, 'kind', 'unknown'))
             newv = term_as_num(newv, True, getattr(base, 'kind', None)) if isinstance(base, Num) else newv
+            pre = self._prefix_store(base, idx, v)
+            if pre is not None:
+                newv = pre
             self.rebind(t.value, newv, st)
         elif isinstance(t, ast.Starred):
             self.unsupported(st, node, 'starred assignment')
         else:
             self.unsupported(st, node, f"assignment target {type(t).__name__}")
+
+    def _prefix_store(self, base, idx, v) -> Optional[Val]:
+        """`buf[:L] = a` on a freshly filled buffer of N copies of c, with L = len(a): the array a ++ fill(c, N - L)"""
+        bt = arr_identity(base) if isinstance(base, Num) else base
+        if not (isinstance(bt, Term) and bt.head == 'fill' and isinstance(idx, Term) and idx.head == 'slice' and len(idx.args) == 3):
+            return None
+        lo, hi, step = idx.args
+        if not ((isinstance(lo, Const) and lo.v is None) or (isinstance(lo, Num) and lo.is_const() and lo.const() == 0)):
+            return None
+        if not (isinstance(step, Const) and step.v is None) or not isinstance(hi, Num) or hi.length is not None:
+            return None
+        a_ = v if isinstance(v, Num) else (self.as_num(v, True) if isinstance(v, Term) else None)
+        if a_ is None or a_.length is None or not (a_.length == hi.r):
+            return None
+        rest = Term('fill', (bt.args[0], Num(bt.args[1].r - hi.r)), kind='ndarray')
+        out = mk_cat([a_, rest])
+        return term_as_num(out, True, 'ndarray') if isinstance(base, Num) else out
 
     def rebind(self, target_expr, newv, st):
         if isinstance(target_expr, ast.Name):
@@ -1148,7 +1168,15 @@ class Evaluator:
                 if na.r.is_const() and nb.r.is_const() and nb.r.const_value() != 0:
                     r = C(na.r.const_value() // nb.r.const_value())
                 else:
-                    r = sym.A('FloorDiv', na.r, nb.r)
+                    cnt, _p = sym.split_content(na.r)
+                    if cnt < 0:
+                        # floor(-a / b) == -ceil(a / b) == -(floor(a / b) + [a mod b != 0])   (integers, any sign of b)
+                        pos_ = -na.r
+                        md = sym.A('Mod', pos_, nb.r)
+                        ind = gamma(P('==', Num(C(0)), Num(md)), Num(C(0)), Num(C(1)))
+                        r = -(sym.A('FloorDiv', pos_, nb.r) + ind.r)
+                    else:
+                        r = sym.A('FloorDiv', na.r, nb.r)
             elif isinstance(op, ast.Mod):
                 if na.r.is_const() and nb.r.is_const() and nb.r.const_value() != 0:
                     r = C(na.r.const_value() % nb.r.const_value())
@@ -1906,6 +1934,48 @@ def h_path_join(ev, pos, kw, st, node):
     return Term('lib:os.path.join', pos, (), kind='str')
 
 
+def h_full(ev, pos, kw, st, node):
+    """full(n, c): n copies of c (1-D)"""
+    shape, fv = _arg(pos, kw, 0, 'shape'), _arg(pos, kw, 1, 'fill_value')
+    if isinstance(shape, Tup) and len(shape.items) == 1:
+        shape = shape.items[0]
+    n_ = ev.as_num(shape) if shape is not None else None
+    if n_ is None or n_.length is not None or fv is None or (set(kw) - {'shape', 'fill_value', 'dtype'}):
+        return None
+    return Term('fill', (fv, n_), kind='ndarray', node=node)
+
+
+def h_pad(ev, pos, kw, st, node):
+    """pad(a, (lo, hi), mode='constant', constant_values=c) on a 1-D array: fill(c, lo) ++ a ++ fill(c, hi)"""
+    arr, pw = _arg(pos, kw, 0, 'array'), _arg(pos, kw, 1, 'pad_width')
+    mode = _arg(pos, kw, 2, 'mode', Const('constant'))
+    cv = kw.get('constant_values', Num(C(0)))
+    if arr is None or not (isinstance(mode, Const) and mode.v == 'constant') or not isinstance(pw, Tup) or len(pw.items) != 2:
+        return None
+    if (set(kw) - {'array', 'pad_width', 'mode', 'constant_values'}) or isinstance(cv, Tup):
+        return None
+    lo, hi = (ev.as_num(x_) for x_ in pw.items)
+    if lo is None or hi is None or lo.length is not None or hi.length is not None:
+        return None
+    a_ = ev.as_num(arr, True) if not isinstance(arr, Num) else arr
+    if a_ is None or a_.length is None:
+        return None
+    parts = []
+    if not (lo.is_const() and lo.const() == 0):
+        parts.append(Term('fill', (cv, lo), kind='ndarray'))
+    parts.append(a_)
+    if not (hi.is_const() and hi.const() == 0):
+        parts.append(Term('fill', (cv, hi), kind='ndarray'))
+    return mk_cat(parts) if len(parts) > 1 else a_
+
+
+def b_divmod(ev, pos, kw, st, node):
+    if len(pos) != 2 or kw:
+        return None
+    import ast as _ast
+    return Tup([ev.binop(_ast.FloorDiv(), pos[0], pos[1], st, node), ev.binop(_ast.Mod(), pos[0], pos[1], st, node)], 'tuple')
+
+
 def h_linspace(ev, pos, kw, st, node):
     """linspace(a, b, k, endpoint=False) is linspace(a, b, k + 1)[:-1] (same step (b - a)/k, the end point dropped)"""
     ep = kw.get('endpoint', pos[3] if len(pos) > 3 else None)
@@ -1938,7 +2008,7 @@ def h_ravel(ev, pos, kw, st, node):
 
 
 LIB_HANDLERS = {
-    'numpy.linspace': h_linspace, 'numpy.ravel': h_ravel,
+    'numpy.linspace': h_linspace, 'numpy.ravel': h_ravel, 'numpy.full': h_full, 'numpy.pad': h_pad,
     'numpy.asarray': h_asarray, 'numpy.asanyarray': h_asarray, 'numpy.array': h_asarray,
     'numpy.ascontiguousarray': h_asarray, 'numpy.atleast_1d': h_asarray,
     'numpy.copy': h_asarray, 'numpy.append': h_append, 'numpy.concatenate': h_concatenate, 'numpy.insert': h_insert, 'numpy.hstack': h_concatenate,
@@ -2132,7 +2202,7 @@ def b_exc(name):
 
 BUILTIN_HANDLERS = {'setattr': b_setattr, 'slice': b_slice, 'len': b_len, 'int': b_int, 'float': b_float, 'abs': b_abs, 'min': _minmax('min'), 'max': _minmax('max'),
                     'range': b_range, 'zip': b_zip, 'enumerate': b_enumerate, 'isinstance': b_isinstance,
-                    'getattr': b_getattr, 'next': b_next, 'iter': b_iter, 'bool': b_bool, 'list': b_list, 'dict': b_dict}
+                    'getattr': b_getattr, 'next': b_next, 'iter': b_iter, 'bool': b_bool, 'list': b_list, 'dict': b_dict, 'divmod': b_divmod}
 for _n in ('ValueError', 'IndexError', 'OSError', 'TypeError', 'KeyError', 'AttributeError', 'Exception', 'RuntimeError'):
     BUILTIN_HANDLERS[_n] = b_exc(_n)
 
